@@ -1,8 +1,1619 @@
-//! Property check C09 (see /verif/DESIGN.md §4).
-use mc::{Level, Report};
+//! Property check C09 — a scheduler pass is all-or-nothing and strictly ordered.
+//!
+//! System under test: the real `WorldlineRuntime` + `ProvenanceService` (cloned as explicit
+//! state) driven by `SchedulerCoordinator::super_tick` on a fresh `Engine` per pass.
+//!
+//! Enumeration (see `scenarios`): every (number of runnable heads n, worldline shape, registration
+//! order, failing position k ≤ n, failure kind, index of the failing pass in a 3-pass run), followed
+//! by a breadth-first search over further operations (pass / trusted recovery / eligibility change /
+//! new ingress) from the end state of the run.
+//!
+//! Oracle: a boring reference model of the scheduler (`Model`: per-head pending sets with the
+//! behaviour each pending intent selects, quarantine flags, tick counters) predicts for every pass
+//! whether it is blocked, fails (and at which head, with which fault scope) or commits (which heads,
+//! in canonical key order, how many envelopes each).  `check_pass` compares the prediction and the
+//! invariants of the property statement against the real pre/post states: on a failed pass every
+//! field of the runtime except fault evidence, the provenance service, inboxes, receipt-correlation
+//! indexes, worldline states, frontiers and the global tick equal their pre-pass values; on a
+//! successful pass commits are in ascending `WriterHeadKey` order, each committed worldline advances
+//! by one per committed head step, the global tick by exactly one, and every `StepRecord` matches
+//! its provenance entry.
+
+use std::collections::{BTreeMap, BTreeSet};
+
+use mc::{json, Level, Report, Value};
+use rayon::prelude::*;
+use rtkit::*;
+use rules::{val, Program, Step};
+use warp_core::verif_hooks::coordinator as hooks;
+use warp_core::{
+    Hash, HeadEligibility, InboxPolicy, IngressDisposition, IngressEnvelope, IngressTarget,
+    ProvenanceStore, RuntimeError, SchedulerCoordinator, SchedulerFaultId,
+    SchedulerFaultRecoveryAuthority, SchedulerFaultScope, SchedulerFaultStatus, SchedulerKind,
+    TickReceiptDisposition, WorldlineTick, WriterHeadKey,
+};
+
+// ---------------------------------------------------------------------------------------------
+// Alphabet
+// ---------------------------------------------------------------------------------------------
+
+#[derive(Clone, Copy, Debug, PartialEq, Eq, PartialOrd, Ord, Hash)]
+enum Kind {
+    /// executor panic (`Step::Panic`)
+    Panic,
+    /// dishonest footprint (`p.omitting(k)`): enforcement unwinds with a typed payload
+    Violation,
+    /// `DeleteNodeUnchecked` on a node with incident edges: typed `EngineError` at commit
+    InvalidOp,
+    /// write into an instance that does not exist (the closest public-API approach to "missing
+    /// instance": a validated `WorldlineState` cannot lose its root instance)
+    CrossInstance,
+    /// provenance append rejected after the engine commit succeeded (frontier tick desynchronised
+    /// from the provenance length through the H6 hook): typed `RuntimeError::Provenance`
+    ProvGap,
+    /// two ticketed intents in the failing head's batch cite the same admission ticket: the second
+    /// receipt correlation is refused *after* commit, append, committed-ingress recording and tick
+    /// advance of that head (typed `ReceiptCorrelationReplayMismatch`)
+    CorrClash,
+    /// frontier tick at `u64::MAX` (hook): pre-flight `FrontierTickOverflow`
+    FrontierOverflow,
+    /// global tick at `u64::MAX` (hook): `GlobalTickOverflow`
+    GlobalOverflow,
+    /// two intents with conflicting footprints on one head: lawful rejection, NOT a failure
+    LawfulLoser,
+}
+
+const FAIL_KINDS: [Kind; 8] = [
+    Kind::Panic,
+    Kind::Violation,
+    Kind::InvalidOp,
+    Kind::CrossInstance,
+    Kind::ProvGap,
+    Kind::CorrClash,
+    Kind::FrontierOverflow,
+    Kind::GlobalOverflow,
+];
+
+/// Behaviour a pending intent selects through its program bytes.
+#[derive(Clone, Copy, Debug, PartialEq, Eq, PartialOrd, Ord)]
+enum Beh {
+    Ok { n: u8, v: u8 },
+    Panic,
+    Violation,
+    InvalidOp,
+    CrossInstance,
+    LoserA,
+    LoserB,
+}
+
+fn program_of(b: Beh) -> Program {
+    match b {
+        Beh::Ok { n, v } => Program::new(vec![Step::SetNodeAtt { n, v }]),
+        // no write at all: cannot lose a footprint conflict, always executes
+        Beh::Panic => Program::new(vec![Step::Panic]),
+        // writes e0's attachment while declaring only the read of its own scope
+        Beh::Violation => Program::new(vec![Step::SetEdgeAtt { e: 0, v: 3 }]).omitting(1),
+        // n1 has the incident edge e0: n0 -> n1
+        Beh::InvalidOp => Program::new(vec![Step::DeleteNodeUnchecked { n: 1 }]),
+        Beh::CrossInstance => Program::new(vec![Step::CrossSetNodeAtt { w: 1, n: 1, v: 1 }]),
+        Beh::LoserA => Program::new(vec![Step::SetNodeAtt { n: 1, v: 1 }]),
+        Beh::LoserB => Program::new(vec![Step::SetNodeAtt { n: 1, v: 5 }]),
+    }
+}
+
+#[derive(Clone, Debug)]
+struct Pend {
+    beh: Beh,
+    /// `(submission id, ticket digest)` when staged through ticketed ingress.
+    ticket: Option<(Hash, Hash)>,
+}
+
+// ---------------------------------------------------------------------------------------------
+// Scenario
+// ---------------------------------------------------------------------------------------------
+
+#[derive(Clone, Debug)]
+struct Scenario {
+    /// heads per worldline, e.g. [2,1] = two heads on wl(1), one on wl(2)
+    shape: Vec<u8>,
+    /// register heads in descending instead of ascending key order
+    reg_rev: bool,
+    /// 1-based position (canonical key order) of the head that fails
+    k: usize,
+    kind: Kind,
+    /// 0 = first, 1 = middle, 2 = last pass of the 3-pass run
+    pass: usize,
+    sched: SchedulerKind,
+}
+
+impl Scenario {
+    fn n(&self) -> usize {
+        self.shape.iter().map(|c| *c as usize).sum()
+    }
+    fn to_json(&self) -> Value {
+        json!({"shape": self.shape, "reg_rev": self.reg_rev, "k": self.k, "kind": format!("{:?}", self.kind),
+               "pass": self.pass, "sched": format!("{:?}", self.sched)})
+    }
+    fn from_json(v: &Value) -> Option<Scenario> {
+        let kind = match v.get("kind")?.as_str()? {
+            "Panic" => Kind::Panic,
+            "Violation" => Kind::Violation,
+            "InvalidOp" => Kind::InvalidOp,
+            "CrossInstance" => Kind::CrossInstance,
+            "ProvGap" => Kind::ProvGap,
+            "CorrClash" => Kind::CorrClash,
+            "FrontierOverflow" => Kind::FrontierOverflow,
+            "GlobalOverflow" => Kind::GlobalOverflow,
+            "LawfulLoser" => Kind::LawfulLoser,
+            _ => return None,
+        };
+        Some(Scenario {
+            shape: v
+                .get("shape")?
+                .as_array()?
+                .iter()
+                .filter_map(|x| x.as_u64().map(|x| x as u8))
+                .collect(),
+            reg_rev: v.get("reg_rev")?.as_bool()?,
+            k: v.get("k")?.as_u64()? as usize,
+            kind,
+            pass: v.get("pass")?.as_u64()? as usize,
+            sched: if v.get("sched")?.as_str()? == "Legacy" {
+                SchedulerKind::Legacy
+            } else {
+                SchedulerKind::Radix
+            },
+        })
+    }
+}
+
+/// All compositions of n into 1..=max_w positive parts.
+fn shapes(n: usize, max_w: usize) -> Vec<Vec<u8>> {
+    fn rec(rem: usize, parts_left: usize, cur: &mut Vec<u8>, out: &mut Vec<Vec<u8>>) {
+        if rem == 0 {
+            if !cur.is_empty() {
+                out.push(cur.clone());
+            }
+            return;
+        }
+        if parts_left == 0 {
+            return;
+        }
+        for c in 1..=rem {
+            cur.push(c as u8);
+            rec(rem - c, parts_left - 1, cur, out);
+            cur.pop();
+        }
+    }
+    let mut out = Vec::new();
+    rec(n, max_w, &mut Vec::new(), &mut out);
+    out
+}
+
+fn scenarios(max_n: usize, scheds: &[SchedulerKind]) -> Vec<Scenario> {
+    let mut out = Vec::new();
+    for n in 1..=max_n {
+        for shape in shapes(n, 3) {
+            if shape.iter().any(|c| *c > 4) {
+                continue;
+            }
+            for reg_rev in [false, true] {
+                if n == 1 && reg_rev {
+                    continue;
+                }
+                for k in 1..=n {
+                    for kind in FAIL_KINDS.iter().copied().chain([Kind::LawfulLoser]) {
+                        for pass in 0..3 {
+                            for sched in scheds {
+                                out.push(Scenario {
+                                    shape: shape.clone(),
+                                    reg_rev,
+                                    k,
+                                    kind,
+                                    pass,
+                                    sched: *sched,
+                                });
+                            }
+                        }
+                    }
+                }
+            }
+        }
+    }
+    out
+}
+
+// ---------------------------------------------------------------------------------------------
+// Reference model
+// ---------------------------------------------------------------------------------------------
+
+#[derive(Clone, Debug)]
+struct HeadM {
+    key: WriterHeadKey,
+    w: u8,
+    pending: BTreeMap<Hash, Pend>,
+    faulted: bool,
+    dormant: bool,
+}
+
+#[derive(Clone, Copy, Debug, PartialEq, Eq)]
+enum WlHook {
+    None,
+    /// frontier tick forced to u64::MAX
+    Max,
+    /// frontier tick forced ahead of the provenance length
+    Gap,
+}
+
+#[derive(Clone, Debug)]
+struct Model {
+    /// canonical key order
+    heads: Vec<HeadM>,
+    runtime_fault: bool,
+    global: u64,
+    global_max: bool,
+    /// true frontier tick (= provenance length) per worldline
+    wl_tick: BTreeMap<u8, u64>,
+    wl_hook: BTreeMap<u8, WlHook>,
+    faults: usize,
+    next_gen: u64,
+    correlations: usize,
+    serial: u32,
+    /// the real system left the model's predictions (already reported as a violation): stop checking this path
+    desync: bool,
+}
+
+#[derive(Clone, Copy, Debug, PartialEq, Eq)]
+enum Scope {
+    Head(usize),
+    Runtime,
+}
+
+#[derive(Clone, Copy, Debug, PartialEq, Eq)]
+enum FailClass {
+    Panic,
+    Violation,
+    EngineErr,
+    /// engine-side failure whose surface (typed error or unwind) is read off the run
+    EngineAny,
+    ProvErr,
+    CorrErr,
+    FrontierOverflow,
+    GlobalOverflow,
+}
+
+#[derive(Clone, Debug, PartialEq, Eq)]
+enum Expect {
+    Blocked,
+    Fail {
+        class: FailClass,
+        culprit: Option<usize>,
+        /// number of heads before the culprit that the pass had already committed
+        committed_before: usize,
+        ticketed_before: usize,
+    },
+    Commit(Vec<(usize, usize)>),
+}
+
+impl Model {
+    fn runnable(&self) -> Vec<usize> {
+        if self.runtime_fault {
+            return Vec::new();
+        }
+        (0..self.heads.len())
+            .filter(|i| !self.heads[*i].faulted && !self.heads[*i].dormant)
+            .collect()
+    }
+
+    fn expect(&self) -> Expect {
+        if self.runtime_fault {
+            return Expect::Blocked;
+        }
+        if self.global_max {
+            return Expect::Fail {
+                class: FailClass::GlobalOverflow,
+                culprit: None,
+                committed_before: 0,
+                ticketed_before: 0,
+            };
+        }
+        let run = self.runnable();
+        for &i in &run {
+            let h = &self.heads[i];
+            if !h.pending.is_empty() && self.wl_hook[&h.w] == WlHook::Max {
+                return Expect::Fail {
+                    class: FailClass::FrontierOverflow,
+                    culprit: Some(i),
+                    committed_before: 0,
+                    ticketed_before: 0,
+                };
+            }
+        }
+        let mut commits = Vec::new();
+        let mut ticketed_before = 0;
+        for &i in &run {
+            let h = &self.heads[i];
+            if h.pending.is_empty() {
+                continue;
+            }
+            let has = |b: Beh| h.pending.values().any(|p| p.beh == b);
+            let fail = |class| Expect::Fail {
+                class,
+                culprit: Some(i),
+                committed_before: commits.len(),
+                ticketed_before,
+            };
+            if has(Beh::Panic) {
+                return fail(FailClass::Panic);
+            }
+            if has(Beh::Violation) {
+                return fail(FailClass::Violation);
+            }
+            if has(Beh::CrossInstance) {
+                return fail(FailClass::EngineAny);
+            }
+            if has(Beh::InvalidOp) {
+                return fail(FailClass::EngineErr);
+            }
+            if self.wl_hook[&h.w] == WlHook::Gap {
+                return fail(FailClass::ProvErr);
+            }
+            let mut tickets = BTreeSet::new();
+            let mut clash = false;
+            for p in h.pending.values() {
+                if let Some((_, t)) = p.ticket {
+                    if !tickets.insert(t) {
+                        clash = true;
+                    }
+                }
+            }
+            if clash {
+                return fail(FailClass::CorrErr);
+            }
+            ticketed_before += tickets.len();
+            commits.push((i, h.pending.len()));
+        }
+        Expect::Commit(commits)
+    }
+}
+
+// ---------------------------------------------------------------------------------------------
+// World = real system + model
+// ---------------------------------------------------------------------------------------------
+
+#[derive(Clone)]
+struct World {
+    rt: Rt,
+    m: Model,
+}
+
+#[derive(Default)]
+struct Out {
+    viol: Vec<(String, String)>,
+    outcomes: Vec<String>,
+    counters: BTreeMap<&'static str, u64>,
+    nontrivial: Vec<u128>,
+    evals: u64,
+    transitions: u64,
+    states: u64,
+    traces: u64,
+    machinery: Vec<String>,
+}
+
+impl Out {
+    fn v(&mut self, sig: impl Into<String>, what: impl Into<String>) {
+        self.viol.push((sig.into(), what.into()));
+    }
+    fn c(&mut self, k: &'static str) {
+        *self.counters.entry(k).or_default() += 1;
+    }
+    fn merge(&mut self, o: Out) {
+        self.viol.extend(o.viol);
+        self.outcomes.extend(o.outcomes);
+        for (k, n) in o.counters {
+            *self.counters.entry(k).or_default() += n;
+        }
+        self.nontrivial.extend(o.nontrivial);
+        self.evals += o.evals;
+        self.transitions += o.transitions;
+        self.states += o.states;
+        self.traces += o.traces;
+        self.machinery.extend(o.machinery);
+    }
+}
+
+fn build_world(sc: &Scenario) -> World {
+    let mut heads = Vec::new();
+    for (wi, c) in sc.shape.iter().enumerate() {
+        for h in 0..*c {
+            heads.push((wi as u8 + 1, h, InboxPolicy::AcceptAll));
+        }
+    }
+    // registration order: ascending or descending canonical key order
+    heads.sort_by_key(|(w, h, _)| head_key(*w, *h));
+    if sc.reg_rev {
+        heads.reverse();
+    }
+    let rt = build_rt(sc.shape.len() as u8, &heads);
+    let mut keys: Vec<(WriterHeadKey, u8)> =
+        heads.iter().map(|(w, h, _)| (head_key(*w, *h), *w)).collect();
+    keys.sort();
+    let m = Model {
+        heads: keys
+            .into_iter()
+            .map(|(key, w)| HeadM {
+                key,
+                w,
+                pending: BTreeMap::new(),
+                faulted: false,
+                dormant: false,
+            })
+            .collect(),
+        runtime_fault: false,
+        global: 0,
+        global_max: false,
+        wl_tick: (1..=sc.shape.len() as u8).map(|w| (w, 0)).collect(),
+        wl_hook: (1..=sc.shape.len() as u8)
+            .map(|w| (w, WlHook::None))
+            .collect(),
+        faults: 0,
+        next_gen: 0,
+        correlations: 0,
+        serial: 0,
+        desync: false,
+    };
+    World { rt, m }
+}
+
+impl World {
+    fn envelope(&self, pos: usize, beh: Beh) -> IngressEnvelope {
+        IngressEnvelope::local_intent(
+            IngressTarget::ExactHead {
+                key: self.m.heads[pos].key,
+            },
+            prog_kind(),
+            program_of(beh).to_bytes(),
+        )
+    }
+
+    /// Ingest one intent on head `pos` (plain or ticketed); the model learns its behaviour.
+    fn ingest(&mut self, pos: usize, beh: Beh, ticket: Option<Hash>, out: &mut Out) {
+        let env = self.envelope(pos, beh);
+        let id = env.ingress_id();
+        let known = self.m.heads[pos].pending.contains_key(&id);
+        match ticket {
+            None => match self.rt.runtime.ingest(env) {
+                Ok(IngressDisposition::Accepted { head_key, .. }) => {
+                    if head_key != self.m.heads[pos].key || known {
+                        out.v("ingest:unexpected-accept", format!("pos={pos} beh={beh:?}"));
+                    }
+                    self.m.heads[pos]
+                        .pending
+                        .insert(id, Pend { beh, ticket: None });
+                }
+                other => out.machinery.push(format!(
+                    "harness ingest of a fresh intent was not accepted: {other:?} pos={pos} beh={beh:?}"
+                )),
+            },
+            Some(t) => match stage_ticketed(&mut self.rt.runtime, env, t) {
+                Ok((sid, warp_core::TicketedRuntimeIngressDisposition::Staged { .. })) => {
+                    self.m.heads[pos].pending.insert(
+                        id,
+                        Pend {
+                            beh,
+                            ticket: Some((sid, t)),
+                        },
+                    );
+                }
+                other => out.machinery.push(format!(
+                    "harness ticketed staging failed: {other:?} pos={pos} beh={beh:?}"
+                )),
+            },
+        }
+    }
+
+    fn fresh_ok(&mut self, n: u8) -> Beh {
+        self.m.serial += 1;
+        Beh::Ok {
+            n,
+            v: 6 + (self.m.serial % 240) as u8,
+        }
+    }
+}
+
+/// Names of runtime fields (fault evidence and runnable cache excluded) that differ.
+fn diff_fields(a: &warp_core::WorldlineRuntime, b: &warp_core::WorldlineRuntime) -> Vec<String> {
+    let (sa, sb) = (format!("{a:?}"), format!("{b:?}"));
+    let (fa, fb) = (debug_fields(&sa), debug_fields(&sb));
+    match (fa, fb) {
+        (Some(fa), Some(fb)) => {
+            let mb: BTreeMap<&str, &str> = fb.into_iter().collect();
+            fa.into_iter()
+                .filter(|(k, v)| {
+                    !FAULT_FIELDS.contains(k) && *k != RUNNABLE_FIELD && mb.get(k) != Some(v)
+                })
+                .map(|(k, _)| k.to_string())
+                .collect()
+        }
+        _ => vec!["<unparseable>".into()],
+    }
+}
+
+fn active_faults(rt: &warp_core::WorldlineRuntime) -> Vec<(u64, SchedulerFaultId, SchedulerFaultScope)> {
+    let mut v: Vec<_> = rt
+        .scheduler_faults()
+        .filter(|f| matches!(f.status, SchedulerFaultStatus::Active))
+        .map(|f| (f.fault_generation.as_u64(), f.fault_id, f.scope))
+        .collect();
+    v.sort_by_key(|x| x.0);
+    v
+}
+
+/// Check the quarantine read-back surfaces against the model.
+fn check_quarantine(w: &World, tag: &str, out: &mut Out) {
+    let rt = &w.rt.runtime;
+    for h in &w.m.heads {
+        if rt.is_head_faulted(&h.key) != h.faulted {
+            out.v(
+                format!("quarantine:is_head_faulted-disagrees-with-model:{tag}"),
+                format!("head={:?} model={}", h.key, h.faulted),
+            );
+        }
+    }
+    if rt.is_runtime_faulted() != w.m.runtime_fault {
+        out.v(
+            format!("quarantine:is_runtime_faulted-disagrees-with-model:{tag}"),
+            format!("model={}", w.m.runtime_fault),
+        );
+    }
+    if rt.scheduler_fault_count() != w.m.faults {
+        out.v(
+            format!("fault-evidence:count-disagrees-with-model:{tag}"),
+            format!("real={} model={}", rt.scheduler_fault_count(), w.m.faults),
+        );
+    }
+    let expect_order: Vec<WriterHeadKey> =
+        w.m.runnable().iter().map(|i| w.m.heads[*i].key).collect();
+    if SchedulerCoordinator::peek_order(rt) != expect_order {
+        out.v(
+            format!("quarantine:peek_order-disagrees-with-model:{tag}"),
+            format!("real={:?}", SchedulerCoordinator::peek_order(rt)),
+        );
+    }
+}
+
+/// Run one pass on the real system, compare with the model's prediction and the statement's
+/// invariants, and advance the model.  Returns the prediction that was checked.
+fn step_pass(w: &mut World, sched: SchedulerKind, ktag: &str, out: &mut Out) -> Expect {
+    let pre = w.rt.clone();
+    let pre_view = runtime_view(&pre.runtime);
+    let pre_prov = format!("{:?}", pre.provenance);
+    let expect = w.m.expect();
+    let run = run_pass(&mut w.rt, sched);
+    out.evals += 1;
+    out.outcomes.push(format!("pass:{}", run.outcome.label()));
+    let post_view = runtime_view(&w.rt.runtime);
+    let post_prov = format!("{:?}", w.rt.provenance);
+    let (pre_view, post_view) = match (pre_view, post_view) {
+        (Some(a), Some(b)) => (a, b),
+        _ => {
+            out.machinery
+                .push("WorldlineRuntime Debug text does not have the expected fields".into());
+            return expect;
+        }
+    };
+    if !run.engine_clean {
+        out.v(
+            format!("engine-state-dirty-after-pass:{ktag}"),
+            "fresh engine's observable state changed across super_tick",
+        );
+    }
+    let pre_front = frontier_summary(&pre.runtime);
+    let post_front = frontier_summary(&w.rt.runtime);
+    let pre_g = pre.runtime.global_tick().as_u64();
+    let post_g = w.rt.runtime.global_tick().as_u64();
+
+    match &expect {
+        Expect::Blocked => {
+            out.c("pass_blocked_by_runtime_fault");
+            match &run.outcome {
+                PassOutcome::Err(RuntimeError::SchedulerRuntimeFaultActive(id)) => {
+                    let active = pre.runtime.scheduler_runtime_fault().map(|f| f.fault_id);
+                    if active != Some(*id) {
+                        out.v(
+                            format!("blocked-pass:cites-wrong-fault:{ktag}"),
+                            format!("{id:?} vs {active:?}"),
+                        );
+                    }
+                }
+                o => out.v(
+                    format!("runtime-fault-does-not-block-pass:{ktag}"),
+                    format!("outcome {}", o.label()),
+                ),
+            }
+            if pre_view.rest != post_view.rest
+                || pre_view.fault != post_view.fault
+                || pre_view.runnable != post_view.runnable
+                || pre_prov != post_prov
+            {
+                out.v(
+                    format!("blocked-pass:state-changed:{ktag}"),
+                    format!("fields {:?}", diff_fields(&pre.runtime, &w.rt.runtime)),
+                );
+            }
+        }
+        Expect::Fail {
+            class,
+            culprit,
+            committed_before,
+            ticketed_before,
+        } => {
+            out.c("failed_passes");
+            if *committed_before > 0 {
+                out.c("failed_passes_after_earlier_heads_committed");
+            }
+            if *ticketed_before > 0 {
+                out.c("failed_passes_after_earlier_receipt_correlations");
+            }
+            // 1. the failure surfaces as the kind predicts
+            let observed = match &run.outcome {
+                PassOutcome::Panic(p) if p.payload.starts_with("violation") => {
+                    Some(FailClass::Violation)
+                }
+                PassOutcome::Panic(p) if p.payload == "str" && p.msg == "verif program panic" => {
+                    Some(FailClass::Panic)
+                }
+                PassOutcome::Panic(_) => None,
+                PassOutcome::Err(RuntimeError::Engine(_)) => Some(FailClass::EngineErr),
+                PassOutcome::Err(RuntimeError::Provenance(_)) => Some(FailClass::ProvErr),
+                PassOutcome::Err(RuntimeError::ReceiptCorrelationReplayMismatch(_)) => {
+                    Some(FailClass::CorrErr)
+                }
+                PassOutcome::Err(RuntimeError::FrontierTickOverflow(wid))
+                    if culprit.map(|c| wl(w.m.heads[c].w)) == Some(*wid) =>
+                {
+                    Some(FailClass::FrontierOverflow)
+                }
+                PassOutcome::Err(RuntimeError::GlobalTickOverflow) => {
+                    Some(FailClass::GlobalOverflow)
+                }
+                _ => None,
+            };
+            let surface_ok = match (*class, observed) {
+                (FailClass::EngineAny, Some(o)) => matches!(
+                    o,
+                    FailClass::Panic | FailClass::Violation | FailClass::EngineErr
+                ),
+                (c, Some(o)) => c == o,
+                (_, None) => false,
+            };
+            let class = match (*class, observed) {
+                (FailClass::EngineAny, Some(o)) => o,
+                (c, _) => c,
+            };
+            if !surface_ok {
+                out.v(
+                    format!("failed-pass:unexpected-surface:{ktag}:expected={class:?}"),
+                    format!("outcome {} ({:?})", run.outcome.label(), run.outcome),
+                );
+                if matches!(run.outcome, PassOutcome::Ok(_)) {
+                    // the model cannot follow a pass that committed instead of failing
+                    w.m.desync = true;
+                    return expect;
+                }
+            }
+            if matches!(run.outcome, PassOutcome::Panic(_)) {
+                out.c("panics_reraised_after_restore");
+            }
+            // 2. everything except fault evidence equals its pre-pass value
+            if pre_view.rest != post_view.rest {
+                for f in diff_fields(&pre.runtime, &w.rt.runtime) {
+                    out.v(
+                        format!("failed-pass:runtime-field-not-restored:{f}:{ktag}"),
+                        format!("class {class:?} culprit {culprit:?} committed_before {committed_before}"),
+                    );
+                }
+            }
+            if pre_prov != post_prov {
+                out.v(
+                    format!("failed-pass:provenance-not-restored:{ktag}"),
+                    format!("class {class:?} culprit {culprit:?} committed_before {committed_before}"),
+                );
+            }
+            // the same through the public read-back API
+            if pre_g != post_g {
+                out.v(
+                    format!("failed-pass:global-tick-changed:{ktag}"),
+                    format!("{pre_g} -> {post_g}"),
+                );
+            }
+            if pre_front != post_front {
+                out.v(
+                    format!("failed-pass:worldline-state-or-frontier-changed:{ktag}"),
+                    "state root / frontier tick differ",
+                );
+            }
+            if pending_summary(&pre.runtime) != pending_summary(&w.rt.runtime) {
+                out.v(
+                    format!("failed-pass:inbox-contents-changed:{ktag}"),
+                    format!(
+                        "{:?} -> {:?}",
+                        pending_summary(&pre.runtime)
+                            .iter()
+                            .map(|x| x.1)
+                            .collect::<Vec<_>>(),
+                        pending_summary(&w.rt.runtime)
+                            .iter()
+                            .map(|x| x.1)
+                            .collect::<Vec<_>>()
+                    ),
+                );
+            }
+            if pre.runtime.receipt_correlation_count() != w.rt.runtime.receipt_correlation_count()
+                || pre.runtime.pending_witnessed_submission_count()
+                    != w.rt.runtime.pending_witnessed_submission_count()
+            {
+                out.v(
+                    format!("failed-pass:receipt-correlation-indexes-changed:{ktag}"),
+                    format!(
+                        "correlations {} -> {}",
+                        pre.runtime.receipt_correlation_count(),
+                        w.rt.runtime.receipt_correlation_count()
+                    ),
+                );
+            }
+            for wid in pre_front.keys() {
+                if pre.provenance.len(*wid).ok() != w.rt.provenance.len(*wid).ok() {
+                    out.v(
+                        format!("failed-pass:provenance-length-changed:{ktag}"),
+                        format!("{wid:?}"),
+                    );
+                }
+            }
+            // 3. only fault evidence grew: exactly one new Active record with the predicted scope
+            let scope = match class {
+                FailClass::EngineErr | FailClass::FrontierOverflow => {
+                    Scope::Head(culprit.unwrap_or(0))
+                }
+                _ => Scope::Runtime,
+            };
+            let old: BTreeMap<_, _> = pre
+                .runtime
+                .scheduler_faults()
+                .map(|f| (f.fault_id, f.clone()))
+                .collect();
+            let mut new_records = Vec::new();
+            for f in w.rt.runtime.scheduler_faults() {
+                match old.get(&f.fault_id) {
+                    Some(o) if o == f => {}
+                    Some(_) => out.v(
+                        format!("failed-pass:existing-fault-record-mutated:{ktag}"),
+                        format!("{f:?}"),
+                    ),
+                    None => new_records.push(f.clone()),
+                }
+            }
+            if w.rt.runtime.scheduler_fault_count() != old.len() + new_records.len() {
+                out.v(
+                    format!("failed-pass:fault-record-lost:{ktag}"),
+                    "an existing record disappeared",
+                );
+            }
+            if new_records.len() != 1 {
+                out.v(
+                    format!("failed-pass:fault-evidence-count:{ktag}:class={class:?}"),
+                    format!("{} new records", new_records.len()),
+                );
+            } else {
+                let f = &new_records[0];
+                let want_scope = match scope {
+                    Scope::Head(i) => SchedulerFaultScope::Head(w.m.heads[i].key),
+                    Scope::Runtime => SchedulerFaultScope::Runtime,
+                };
+                if f.scope != want_scope {
+                    out.v(
+                        format!("failed-pass:fault-scope:{ktag}:class={class:?}"),
+                        format!("recorded {:?}, expected {want_scope:?}", f.scope),
+                    );
+                }
+                if f.status != SchedulerFaultStatus::Active {
+                    out.v(
+                        format!("failed-pass:new-fault-not-active:{ktag}"),
+                        format!("{:?}", f.status),
+                    );
+                }
+                if f.fault_generation.as_u64() <= w.m.next_gen {
+                    out.v(
+                        format!("failed-pass:fault-generation-not-fresh:{ktag}"),
+                        format!("{} <= {}", f.fault_generation.as_u64(), w.m.next_gen),
+                    );
+                }
+                w.m.next_gen = f.fault_generation.as_u64();
+            }
+            w.m.faults += new_records.len();
+            match scope {
+                Scope::Head(i) => w.m.heads[i].faulted = true,
+                Scope::Runtime => w.m.runtime_fault = true,
+            }
+            out.nontrivial.push(Report::key(
+                format!(
+                    "fail:{class:?}:{culprit:?}:{committed_before}:{}",
+                    w.m.heads.len()
+                )
+                .as_bytes(),
+            ));
+        }
+        Expect::Commit(commits) => {
+            let records = match &run.outcome {
+                PassOutcome::Ok(r) => r.clone(),
+                o => {
+                    out.v(
+                        format!("pass-failed-without-cause:{ktag}"),
+                        format!("model predicts {} commits, outcome {} ({o:?})", commits.len(), o.label()),
+                    );
+                    w.m.desync = true;
+                    return expect;
+                }
+            };
+            out.c("successful_passes");
+            if commits.len() >= 2 {
+                out.c("successful_passes_with_2plus_commits");
+                out.nontrivial
+                    .push(Report::key(format!("commit:{commits:?}:{}", w.m.heads.len()).as_bytes()));
+            }
+            // order: ascending WriterHeadKey, exactly the predicted heads
+            let got: Vec<WriterHeadKey> = records.iter().map(|r| r.head_key).collect();
+            let want: Vec<WriterHeadKey> = commits.iter().map(|(i, _)| w.m.heads[*i].key).collect();
+            if got.windows(2).any(|p| p[0] >= p[1]) {
+                out.v(
+                    format!("ok-pass:commits-not-in-ascending-head-key-order:{ktag}"),
+                    format!("{got:?}"),
+                );
+            }
+            if got != want {
+                out.v(
+                    format!("ok-pass:committed-heads-differ-from-model:{ktag}"),
+                    format!("got {got:?} want {want:?}"),
+                );
+            }
+            // global tick: exactly one per pass
+            if post_g != pre_g + 1 {
+                out.v(
+                    format!("ok-pass:global-tick-delta:{ktag}"),
+                    format!("{pre_g} -> {post_g} with {} commits", records.len()),
+                );
+            }
+            let mut per_wl: BTreeMap<warp_core::WorldlineId, u64> = BTreeMap::new();
+            for (ri, rec) in records.iter().enumerate() {
+                let wid = rec.head_key.worldline_id;
+                let c = per_wl.entry(wid).or_default();
+                *c += 1;
+                let want_tick = pre_front[&wid].0 + *c;
+                if rec.worldline_tick_after.as_u64() != want_tick {
+                    out.v(
+                        format!("ok-pass:worldline-tick-not-plus-one-per-step:{ktag}"),
+                        format!("record {ri}: {} want {want_tick}", rec.worldline_tick_after.as_u64()),
+                    );
+                }
+                if rec.commit_global_tick.as_u64() != pre_g + 1 {
+                    out.v(
+                        format!("ok-pass:record-global-tick:{ktag}"),
+                        format!("record {ri}: {} want {}", rec.commit_global_tick.as_u64(), pre_g + 1),
+                    );
+                }
+                if let Some((_, n)) = commits.get(ri) {
+                    if rec.admitted_count != *n {
+                        out.v(
+                            format!("ok-pass:admitted-count:{ktag}"),
+                            format!("record {ri}: {} want {n}", rec.admitted_count),
+                        );
+                    }
+                }
+                // StepRecord <-> provenance entry
+                let tick = WorldlineTick::from_raw(rec.worldline_tick_after.as_u64().saturating_sub(1));
+                match w.rt.provenance.entry(wid, tick) {
+                    Ok(e) => {
+                        let mut bad = Vec::new();
+                        if e.head_key != Some(rec.head_key) {
+                            bad.push("head_key");
+                        }
+                        if e.commit_global_tick != rec.commit_global_tick {
+                            bad.push("commit_global_tick");
+                        }
+                        if e.expected.commit_hash != rec.commit_hash {
+                            bad.push("commit_hash");
+                        }
+                        if e.expected.state_root != rec.state_root {
+                            bad.push("state_root");
+                        }
+                        if e.worldline_tick != tick {
+                            bad.push("worldline_tick");
+                        }
+                        // hash chain: parent is the previous entry of the worldline
+                        let want_parent = if tick.as_u64() == 0 {
+                            None
+                        } else {
+                            w.rt.provenance
+                                .entry(wid, WorldlineTick::from_raw(tick.as_u64() - 1))
+                                .ok()
+                                .map(|p| p.expected.commit_hash)
+                        };
+                        if e.parents.first().map(|p| p.commit_hash) != want_parent {
+                            bad.push("parents");
+                        }
+                        if e.tick_receipt.as_ref().map(|r| r.entries().len())
+                            != Some(rec.admitted_count)
+                        {
+                            bad.push("receipt_entries");
+                        }
+                        for b in bad {
+                            out.v(
+                                format!("ok-pass:step-record-vs-provenance:{b}:{ktag}"),
+                                format!("record {ri}"),
+                            );
+                        }
+                        // lawful loser: one Applied, one Rejected, and no fault (checked below)
+                        if let (Some(rc), Some((i, _))) = (&e.tick_receipt, commits.get(ri)) {
+                            let h = &w.m.heads[*i];
+                            let losers = h
+                                .pending
+                                .values()
+                                .filter(|p| matches!(p.beh, Beh::LoserA | Beh::LoserB))
+                                .count();
+                            let rejected = rc
+                                .entries()
+                                .iter()
+                                .filter(|x| matches!(x.disposition, TickReceiptDisposition::Rejected(_)))
+                                .count();
+                            if losers == 2 {
+                                out.c("lawful_rejections_committed");
+                                if rejected != 1 {
+                                    out.v(
+                                        format!("lawful-loser:rejected-count:{ktag}"),
+                                        format!("{rejected} rejected entries for a conflicting pair"),
+                                    );
+                                }
+                            }
+                        }
+                    }
+                    Err(e) => out.v(
+                        format!("ok-pass:step-record-without-provenance-entry:{ktag}"),
+                        format!("record {ri}: {e:?}"),
+                    ),
+                }
+            }
+            // worldlines: advance by exactly the number of committed steps; untouched otherwise
+            for (wid, (t0, root0)) in &pre_front {
+                let c = per_wl.get(wid).copied().unwrap_or(0);
+                let (t1, root1) = post_front[wid];
+                if t1 != t0 + c {
+                    out.v(
+                        format!("ok-pass:frontier-tick-delta:{ktag}"),
+                        format!("{wid:?}: {t0} -> {t1} with {c} steps"),
+                    );
+                }
+                let plen = w.rt.provenance.len(*wid).unwrap_or(u64::MAX);
+                let plen0 = pre.provenance.len(*wid).unwrap_or(u64::MAX);
+                if plen != plen0 + c {
+                    out.v(
+                        format!("ok-pass:provenance-length-delta:{ktag}"),
+                        format!("{wid:?}: {plen0} -> {plen} with {c} steps"),
+                    );
+                }
+                if c == 0 && root1 != *root0 {
+                    out.v(
+                        format!("ok-pass:untouched-worldline-changed:{ktag}"),
+                        format!("{wid:?}"),
+                    );
+                }
+                if c > 0 {
+                    let last = records
+                        .iter()
+                        .rev()
+                        .find(|r| r.head_key.worldline_id == *wid)
+                        .map(|r| r.state_root);
+                    if last != Some(root1) {
+                        out.v(
+                            format!("ok-pass:final-state-root-differs-from-last-record:{ktag}"),
+                            format!("{wid:?}"),
+                        );
+                    }
+                }
+            }
+            // no fault evidence on a successful pass (lawful rejections are receipts)
+            if pre_view.fault != post_view.fault {
+                out.v(
+                    format!("ok-pass:fault-evidence-changed:{ktag}"),
+                    "scheduler fault fields differ after a successful pass",
+                );
+            }
+            // effects + correlations + inboxes; advance the model
+            for (i, _) in commits {
+                let h = w.m.heads[*i].clone();
+                let wid = wl(h.w);
+                let mut writers: BTreeMap<u8, Vec<u8>> = BTreeMap::new();
+                for (id, p) in &h.pending {
+                    if event_node(&w.rt.runtime, &wid, id).is_none() {
+                        out.v(
+                            format!("ok-pass:committed-ingress-without-event-node:{ktag}"),
+                            format!("head {i}"),
+                        );
+                    }
+                    if let Beh::Ok { n, v } = p.beh {
+                        writers.entry(n).or_default().push(v);
+                    }
+                    if let Some((sid, t)) = p.ticket {
+                        match w.rt.runtime.receipt_correlation_for_submission(&sid) {
+                            Some(c) => {
+                                if c.ticket_digest != t
+                                    || c.head_key != h.key
+                                    || c.commit_global_tick.as_u64() != pre_g + 1
+                                    || !records.iter().any(|r| r.commit_hash == c.commit_hash)
+                                {
+                                    out.v(
+                                        format!("ok-pass:receipt-correlation-mismatch:{ktag}"),
+                                        format!("{c:?}"),
+                                    );
+                                }
+                                w.m.correlations += 1;
+                            }
+                            None => out.v(
+                                format!("ok-pass:ticketed-commit-without-receipt-correlation:{ktag}"),
+                                format!("head {i}"),
+                            ),
+                        }
+                    }
+                }
+                // the last head committed on this worldline in this pass leaves its (unambiguous) writes visible
+                let last_on_wl = commits
+                    .iter()
+                    .rev()
+                    .find(|(j, _)| w.m.heads[*j].w == h.w)
+                    .map(|(j, _)| *j);
+                if last_on_wl == Some(*i) {
+                    let fr = w.rt.runtime.worldlines().get(&wid);
+                    for (n, vs) in &writers {
+                        if vs.len() != 1 {
+                            continue;
+                        }
+                        let want = val(vs[0]).map(|a| rules::universe().att_value(&a));
+                        let got = fr.and_then(|f| {
+                            let st = f.state();
+                            st.store(&st.root().warp_id)
+                                .and_then(|s| s.node_attachment(&rules::universe().node(*n)).cloned())
+                        });
+                        if got != want {
+                            out.v(
+                                format!("ok-pass:committed-write-not-visible:{ktag}"),
+                                format!("head {i} node n{n}"),
+                            );
+                        }
+                    }
+                }
+                *w.m.wl_tick.get_mut(&h.w).unwrap() += 1;
+                w.m.heads[*i].pending.clear();
+            }
+            if w.rt.runtime.receipt_correlation_count() != w.m.correlations {
+                out.v(
+                    format!("ok-pass:receipt-correlation-count:{ktag}"),
+                    format!("{} vs model {}", w.rt.runtime.receipt_correlation_count(), w.m.correlations),
+                );
+            }
+            w.m.global += 1;
+            let want_pending: Vec<usize> = w.m.heads.iter().map(|h| h.pending.len()).collect();
+            let got_pending: Vec<usize> =
+                pending_summary(&w.rt.runtime).iter().map(|x| x.1).collect();
+            if want_pending != got_pending {
+                out.v(
+                    format!("ok-pass:inbox-contents-differ-from-model:{ktag}"),
+                    format!("got {got_pending:?} want {want_pending:?}"),
+                );
+            }
+        }
+    }
+    // runnable cache = its definition, on every path
+    let want_runnable = runnable_text(
+        &w.m.runnable()
+            .iter()
+            .map(|i| w.m.heads[*i].key)
+            .collect::<Vec<_>>(),
+    );
+    if post_view.runnable != want_runnable {
+        out.v(
+            format!("runnable-set-differs-from-definition:{ktag}"),
+            format!("{} vs {want_runnable}", post_view.runnable),
+        );
+    }
+    check_quarantine(w, ktag, out);
+    expect
+}
+
+// ---------------------------------------------------------------------------------------------
+// Continuation BFS
+// ---------------------------------------------------------------------------------------------
+
+#[derive(Clone, Debug, PartialEq, Eq)]
+enum Op {
+    Tick,
+    /// resolve the i-th active fault (generation order) through the trusted authority
+    Resolve(usize),
+    /// set the eligibility of head `pos`
+    Dormant(usize, bool),
+    /// fresh ok intent on head `pos`
+    Ingest(usize),
+}
+
+fn menu(w: &World, focus: usize) -> Vec<Op> {
+    let mut v = vec![Op::Tick];
+    for i in 0..active_faults(&w.rt.runtime).len() {
+        v.push(Op::Resolve(i));
+    }
+    v.push(Op::Dormant(focus, !w.m.heads[focus].dormant));
+    for p in 0..w.m.heads.len() {
+        v.push(Op::Ingest(p));
+    }
+    v
+}
+
+fn apply_op(w: &mut World, op: &Op, sc: &Scenario, ktag: &str, out: &mut Out) {
+    match op {
+        Op::Tick => {
+            step_pass(w, sc.sched, ktag, out);
+        }
+        Op::Ingest(p) => {
+            let b = w.fresh_ok(2);
+            w.ingest(*p, b, None, out);
+        }
+        Op::Dormant(p, d) => {
+            let pre = runtime_view(&w.rt.runtime);
+            let key = w.m.heads[*p].key;
+            let r = w.rt.runtime.set_head_eligibility(
+                key,
+                if *d {
+                    HeadEligibility::Dormant
+                } else {
+                    HeadEligibility::Admitted
+                },
+            );
+            if r.is_err() {
+                out.machinery.push(format!("set_head_eligibility failed: {r:?}"));
+            }
+            w.m.heads[*p].dormant = *d;
+            let post = runtime_view(&w.rt.runtime);
+            if let (Some(a), Some(b)) = (pre, post) {
+                if a.fault != b.fault {
+                    out.v(
+                        format!("eligibility-change-altered-fault-evidence:{ktag}"),
+                        format!("head {p} dormant={d}"),
+                    );
+                }
+            }
+            out.c("eligibility_changes");
+            check_quarantine(w, ktag, out);
+        }
+        Op::Resolve(i) => {
+            let act = active_faults(&w.rt.runtime);
+            let Some((_, id, scope)) = act.get(*i).copied() else {
+                return;
+            };
+            let auth = SchedulerFaultRecoveryAuthority::assume_runtime_owner();
+            let pre = w.rt.clone();
+            let recovery = mc::h(format!("recovery:{:?}", id).as_bytes());
+            match w.rt.runtime.resolve_scheduler_fault(&auth, id, recovery) {
+                Ok(()) => {}
+                Err(e) => out.v(
+                    format!("recovery:resolve-active-fault-refused:{ktag}"),
+                    format!("{e:?}"),
+                ),
+            }
+            out.c("recoveries");
+            match scope {
+                SchedulerFaultScope::Head(k) => {
+                    if let Some(h) = w.m.heads.iter_mut().find(|h| h.key == k) {
+                        h.faulted = false;
+                    }
+                }
+                SchedulerFaultScope::Runtime => w.m.runtime_fault = false,
+            }
+            // recovery touches nothing but fault evidence
+            let (a, b) = (runtime_view(&pre.runtime), runtime_view(&w.rt.runtime));
+            if let (Some(a), Some(b)) = (a, b) {
+                if a.rest != b.rest {
+                    out.v(
+                        format!("recovery:changed-non-fault-state:{ktag}"),
+                        format!("{:?}", diff_fields(&pre.runtime, &w.rt.runtime)),
+                    );
+                }
+            }
+            if format!("{:?}", pre.provenance) != format!("{:?}", w.rt.provenance) {
+                out.v(format!("recovery:changed-provenance:{ktag}"), "");
+            }
+            match w.rt.runtime.scheduler_fault(&id).map(|f| f.status) {
+                Some(SchedulerFaultStatus::Resolved { recovery_id }) if recovery_id == recovery => {}
+                s => out.v(
+                    format!("recovery:record-not-marked-resolved:{ktag}"),
+                    format!("{s:?}"),
+                ),
+            }
+            // evidence is kept, and a second resolution is refused
+            if w.rt.runtime.scheduler_fault_count() != pre.runtime.scheduler_fault_count() {
+                out.v(format!("recovery:fault-evidence-dropped:{ktag}"), "");
+            }
+            let mut again = w.rt.clone();
+            if !matches!(
+                again.runtime.resolve_scheduler_fault(&auth, id, recovery),
+                Err(RuntimeError::SchedulerFaultAlreadyResolved(_))
+            ) {
+                out.v(format!("recovery:double-resolution-accepted:{ktag}"), "");
+            }
+            check_quarantine(w, ktag, out);
+        }
+    }
+}
+
+/// BFS over further operations from `w0`; every transition is executed on the real system and
+/// compared with the model.  Dedup key: full Debug fingerprint of runtime + provenance (equal
+/// fingerprints ⇒ equal futures: the transition functions read nothing else; the fresh engine is a
+/// constant) plus the model's serial (names of future fresh intents).
+fn continuation(w0: &World, sc: &Scenario, depth: usize, focus: usize, ktag: &str, out: &mut Out) {
+    let key = |w: &World| mc::h(format!("{:?}|{:?}|{}", w.rt.runtime, w.rt.provenance, w.m.serial).as_bytes());
+    let mut seen = BTreeSet::new();
+    seen.insert(key(w0));
+    out.states += 1;
+    let mut frontier = vec![w0.clone()];
+    for d in 0..depth {
+        let mut next = Vec::new();
+        for w in &frontier {
+            for op in menu(w, focus) {
+                let mut w2 = w.clone();
+                let tag = format!("{ktag}:cont");
+                apply_op(&mut w2, &op, sc, &tag, out);
+                out.transitions += 1;
+                if d + 1 == depth {
+                    out.traces += 1;
+                }
+                if seen.insert(key(&w2)) {
+                    out.states += 1;
+                    next.push(w2);
+                }
+            }
+        }
+        frontier = next;
+    }
+}
+
+// ---------------------------------------------------------------------------------------------
+// One scenario
+// ---------------------------------------------------------------------------------------------
+
+fn ticket_digest(sc: &Scenario, pos: usize, pass: usize, tag: &str) -> Hash {
+    mc::h(format!("ticket:{:?}:{}:{}:{}:{tag}", sc.shape, sc.k, pos, pass).as_bytes())
+}
+
+fn run_scenario(sc: &Scenario, cont_depth: usize) -> Out {
+    let mut out = Out::default();
+    let mut w = build_world(sc);
+    let n = sc.n();
+    let kpos = sc.k - 1;
+    let ktag = format!("kind={:?}", sc.kind);
+    let kw = w.m.heads[kpos].w;
+    // registration order differs from key order?
+    if w.rt.heads.windows(2).any(|p| p[0] > p[1]) {
+        out.c("scenarios_registered_out_of_key_order");
+    }
+    let mut failing_expect = None;
+    for p in 0..3 {
+        let failing = p == sc.pass;
+        let wl_scoped = matches!(sc.kind, Kind::ProvGap | Kind::FrontierOverflow);
+        for pos in 0..n {
+            let tk = |tag: &str| {
+                if (pos + p) % 2 == 0 {
+                    Some(ticket_digest(sc, pos, p, tag))
+                } else {
+                    None
+                }
+            };
+            if failing && pos == kpos {
+                match sc.kind {
+                    Kind::Panic | Kind::Violation | Kind::InvalidOp | Kind::CrossInstance => {
+                        // a lawful companion in the same batch: node n2 is untouched by every failing program
+                        let ok = w.fresh_ok(2);
+                        w.ingest(pos, ok, tk("ok"), &mut out);
+                        let bad = match sc.kind {
+                            Kind::Panic => Beh::Panic,
+                            Kind::Violation => Beh::Violation,
+                            Kind::InvalidOp => Beh::InvalidOp,
+                            _ => Beh::CrossInstance,
+                        };
+                        w.ingest(pos, bad, None, &mut out);
+                    }
+                    Kind::CorrClash => {
+                        let t = ticket_digest(sc, pos, p, "clash");
+                        let a = w.fresh_ok(1);
+                        let b = w.fresh_ok(2);
+                        w.ingest(pos, a, Some(t), &mut out);
+                        w.ingest(pos, b, Some(t), &mut out);
+                    }
+                    Kind::LawfulLoser => {
+                        w.ingest(pos, Beh::LoserA, tk("la"), &mut out);
+                        w.ingest(pos, Beh::LoserB, None, &mut out);
+                    }
+                    Kind::ProvGap | Kind::FrontierOverflow | Kind::GlobalOverflow => {
+                        let ok = w.fresh_ok(2);
+                        w.ingest(pos, ok, tk("ok"), &mut out);
+                    }
+                }
+            } else if failing && wl_scoped && pos < kpos && w.m.heads[pos].w == kw {
+                // worldline-scoped failure: earlier heads of that worldline stay idle so that the
+                // failing head is exactly position k
+            } else {
+                let ok = w.fresh_ok(2);
+                w.ingest(pos, ok, tk("ok"), &mut out);
+            }
+        }
+        // hooks for the counter-overflow / desynchronisation kinds
+        let pre_hook = w.rt.clone();
+        let mut hooked = false;
+        if failing {
+            match sc.kind {
+                Kind::FrontierOverflow => {
+                    hooks::set_frontier_tick(&mut w.rt.runtime, &wl(kw), u64::MAX);
+                    w.m.wl_hook.insert(kw, WlHook::Max);
+                    hooked = true;
+                }
+                Kind::ProvGap => {
+                    let t = w.m.wl_tick[&kw];
+                    hooks::set_frontier_tick(&mut w.rt.runtime, &wl(kw), t + 7);
+                    w.m.wl_hook.insert(kw, WlHook::Gap);
+                    hooked = true;
+                }
+                Kind::GlobalOverflow => {
+                    hooks::set_global_tick(&mut w.rt.runtime, u64::MAX);
+                    w.m.global_max = true;
+                    hooked = true;
+                }
+                _ => {}
+            }
+        }
+        let tag = format!("{ktag}:pass={}", ["first", "middle", "last"][p]);
+        let e = step_pass(&mut w, sc.sched, if failing { &tag } else { &ktag }, &mut out);
+        out.transitions += 1;
+        out.states += 1;
+        if w.m.desync {
+            return out;
+        }
+        if failing {
+            failing_expect = Some(e.clone());
+            match (&e, sc.kind) {
+                (Expect::Commit(_), Kind::LawfulLoser) => {}
+                (Expect::Fail { culprit, .. }, k) if k != Kind::LawfulLoser => {
+                    if sc.kind != Kind::GlobalOverflow && *culprit != Some(kpos) {
+                        out.machinery.push(format!(
+                            "scenario construction: failing head {culprit:?} is not position {kpos}"
+                        ));
+                    }
+                    out.outcomes.push(format!(
+                        "failed:{:?}:n={n}:k={}:pass={p}",
+                        sc.kind, sc.k
+                    ));
+                }
+                _ => out.machinery.push(format!(
+                    "scenario construction: model predicts {e:?} for kind {:?}",
+                    sc.kind
+                )),
+            }
+        }
+        if hooked {
+            // operator repair of the injected counter condition (scaffolding, not part of the property):
+            // afterwards the state equals the pre-hook state except for fault evidence
+            match sc.kind {
+                Kind::FrontierOverflow | Kind::ProvGap => {
+                    let t = w.m.wl_tick[&kw];
+                    hooks::set_frontier_tick(&mut w.rt.runtime, &wl(kw), t);
+                    w.m.wl_hook.insert(kw, WlHook::None);
+                }
+                _ => {
+                    hooks::set_global_tick(&mut w.rt.runtime, w.m.global);
+                    w.m.global_max = false;
+                }
+            }
+            let (a, b) = (runtime_view(&pre_hook.runtime), runtime_view(&w.rt.runtime));
+            if let (Some(a), Some(b)) = (a, b) {
+                if a.rest != b.rest
+                    || format!("{:?}", pre_hook.provenance) != format!("{:?}", w.rt.provenance)
+                {
+                    out.v(
+                        format!("failed-pass:state-differs-from-pre-pass-after-counter-repair:{ktag}"),
+                        format!("{:?}", diff_fields(&pre_hook.runtime, &w.rt.runtime)),
+                    );
+                }
+            }
+        }
+        // a runtime-scoped fault blocks every head until trusted recovery; then quarantine the
+        // culprit head by eligibility so that the rest of the run exercises commits again
+        if failing && w.m.runtime_fault && p < 2 {
+            step_pass(&mut w, sc.sched, &format!("{ktag}:blocked"), &mut out);
+            apply_op(&mut w, &Op::Resolve(0), sc, &ktag, &mut out);
+            out.transitions += 2;
+            out.states += 2;
+            if sc.kind != Kind::GlobalOverflow && sc.kind != Kind::ProvGap {
+                apply_op(&mut w, &Op::Dormant(kpos, true), sc, &ktag, &mut out);
+            }
+        }
+    }
+    if let Some(Expect::Fail {
+        committed_before, ..
+    }) = &failing_expect
+    {
+        if *committed_before > 0 {
+            out.outcomes
+                .push(format!("rollback_after_earlier_commit:{:?}", sc.kind));
+        }
+    }
+    out.traces += 1;
+    if !w.m.desync {
+        continuation(&w, sc, cont_depth, kpos, &ktag, &mut out);
+    }
+    out
+}
+
+// ---------------------------------------------------------------------------------------------
+// main
+// ---------------------------------------------------------------------------------------------
 
 fn main() {
-    let r = Report::new("C09", Level::Exploration);
-    r.machinery_error("check not implemented yet");
+    let r = Report::new("C09", Level::ModelChecking);
+    mc::quiet_panics();
+    let _ = rayon::ThreadPoolBuilder::new()
+        .num_threads(
+            2 * std::thread::available_parallelism()
+                .map(|n| n.get())
+                .unwrap_or(8),
+        )
+        .build_global();
+    r.rule(
+        "one case = (n runnable heads, composition of n over 1..3 worldlines, registration order asc/desc, \
+         failing position k<=n in canonical key order, failure kind, failing pass first/middle/last of 3, scheduler kind); \
+         every case runs 3 real scheduler passes (plus a blocked pass and trusted recovery after runtime-scoped faults) and then a BFS \
+         (ops: pass, resolve each active fault, toggle eligibility of the culprit head, fresh ingress on each head) of the stated depth; \
+         every pass on every path is compared with the reference scheduler model and the all-or-nothing / ordering invariants. \
+         distinct_nontrivial counts distinct (failure class, culprit position, heads already committed in the failed pass, n) \
+         and distinct multi-commit batches of successful passes",
+    );
+    r.assume("fault evidence = WorldlineRuntime fields scheduler_faults, faulted_heads, runtime_fault, next_scheduler_fault_generation (read off the struct); the `runnable` cache is a function of head modes and fault evidence and is compared against that definition instead of its pre-pass value");
+    r.assume("Debug text of WorldlineRuntime/ProvenanceService is a faithful, deterministic rendering of their private state (all collections are BTreeMap/BTreeSet/Vec)");
+    r.assume("a fresh Engine per pass: engine-owned configuration (rules, policy, scheduler kind, 1 worker) is constant; the engine's observable state is compared before/after every pass");
+    r.assume("failure kind 'missing instance' is not reachable through the public API (WorldlineState::new validates the root instance and user rules cannot delete instances under enforcement); CrossInstance (write into a non-existent instance) is enumerated in its place. Tick overflow uses the H6 hooks; ProvGap desynchronises the frontier tick from the provenance length with the same hook to make append_local_commit fail after a successful engine commit");
+
+    if let Some(path) = r.replay.clone() {
+        let v: Value = std::fs::read_to_string(&path)
+            .ok()
+            .and_then(|s| serde_json::from_str(&s).ok())
+            .unwrap_or(Value::Null);
+        let case = v.get("case").cloned().or_else(|| v.get("detail").and_then(|d| d.get("case").cloned()));
+        match case.as_ref().and_then(Scenario::from_json) {
+            Some(sc) => {
+                let out = run_scenario(&sc, 2);
+                flush(&r, &sc, out);
+                r.add_states(1);
+                r.add_transitions(1);
+                r.add_traces(1);
+                r.sample(sc.to_json());
+                r.nontrivial(b"replay-a");
+                r.nontrivial(b"replay-b");
+            }
+            None => r.machinery_error("replay file has no parsable `case`"),
+        }
+        r.finish();
+    }
+
+    let max_n = r.pick(3, 4);
+    let cont_depth = r.pick(2, 3);
+    let scheds: Vec<SchedulerKind> = if r.quick() {
+        vec![SchedulerKind::Radix]
+    } else {
+        vec![SchedulerKind::Radix, SchedulerKind::Legacy]
+    };
+    let all = scenarios(max_n, &scheds);
+    r.note("scenarios", json!(all.len()));
+    r.note("max_heads", json!(max_n));
+    r.note("continuation_depth", json!(cont_depth));
+    for sc in all.iter().step_by((all.len() / 6).max(1)).take(6) {
+        r.sample(sc.to_json());
+    }
+
+    let results: Vec<(usize, Option<Out>)> = all
+        .par_iter()
+        .enumerate()
+        .map(|(i, sc)| {
+            if r.over_budget_frac(0.9) {
+                return (i, None);
+            }
+            (i, Some(run_scenario(sc, cont_depth)))
+        })
+        .collect();
+    let mut done = 0usize;
+    for (i, o) in results {
+        match o {
+            Some(out) => {
+                done += 1;
+                flush(&r, &all[i], out);
+            }
+            None => {}
+        }
+    }
+    if done < all.len() {
+        r.cap_hit(&format!(
+            "wall cap: {done} of {} scenarios completed (scenario order is n-major)",
+            all.len()
+        ));
+    }
+
+    // vacuity guards
+    let complete = done == all.len();
+    for kind in FAIL_KINDS {
+        let mut every = true;
+        for n in 1..=max_n {
+            for k in 1..=n {
+                for p in 0..3 {
+                    if r.outcome_count(&format!("failed:{kind:?}:n={n}:k={k}:pass={p}")) == 0 {
+                        every = false;
+                    }
+                }
+            }
+        }
+        // when a wall cap cut the enumeration short, only n=1 is required
+        let minimal = r.outcome_count(&format!("failed:{kind:?}:n=1:k=1:pass=0")) > 0;
+        r.guard(
+            &format!("kind_{kind:?}_produced_a_failed_pass_at_every_position_and_pass_index"),
+            if complete { every } else { minimal },
+        );
+        if !matches!(kind, Kind::FrontierOverflow | Kind::GlobalOverflow) {
+            r.guard(
+                &format!("kind_{kind:?}_rolled_back_after_an_earlier_head_committed"),
+                r.outcome_count(&format!("rollback_after_earlier_commit:{kind:?}")) > 0,
+            );
+        }
+    }
+    r.guard(
+        "rollbacks_after_earlier_heads_committed",
+        r.counter_value("failed_passes_after_earlier_heads_committed") > 0,
+    );
+    r.guard(
+        "rollbacks_after_earlier_receipt_correlations",
+        r.counter_value("failed_passes_after_earlier_receipt_correlations") > 0,
+    );
+    r.guard("panics_reraised", r.counter_value("panics_reraised_after_restore") > 0);
+    r.guard("lawful_rejections_seen", r.counter_value("lawful_rejections_committed") > 0);
+    r.guard("blocked_passes_seen", r.counter_value("pass_blocked_by_runtime_fault") > 0);
+    r.guard("recoveries_seen", r.counter_value("recoveries") > 0);
+    r.guard(
+        "multi_commit_passes_seen",
+        r.counter_value("successful_passes_with_2plus_commits") > 0,
+    );
+    r.guard(
+        "registration_order_differs_from_key_order",
+        r.counter_value("scenarios_registered_out_of_key_order") > 0,
+    );
     r.finish();
+}
+
+fn flush(r: &Report, sc: &Scenario, out: Out) {
+    r.eval(out.evals);
+    r.add_states(out.states);
+    r.add_transitions(out.transitions);
+    r.add_traces(out.traces);
+    r.nontrivial_many(out.nontrivial.iter().copied());
+    for o in &out.outcomes {
+        r.outcome(o);
+    }
+    for (k, n) in &out.counters {
+        r.counter(k, *n);
+    }
+    for m in &out.machinery {
+        r.machinery_error(&format!("{m} scenario={}", sc.to_json()));
+    }
+    for (sig, what) in out.viol {
+        r.violation(&sig, json!({"case": sc.to_json(), "what": what}));
+    }
 }
